@@ -107,7 +107,20 @@ struct TapLeaf : public TapNode {
     }
 };
 
+static int tap_main(int argc, char* const* argv);
+
 int main(int argc, char* const* argv)
+{
+    // value expressions on the command line report bad input by throwing
+    try {
+        return tap_main(argc, argv);
+    } catch (std::exception const& ex) {
+        fprintf(stderr, "error: %s\n", ex.what());
+        return 1;
+    }
+}
+
+static int tap_main(int argc, char* const* argv)
 {
     ECC_Start();
 
@@ -501,6 +514,7 @@ int main(int argc, char* const* argv)
     }
 
     ECC_Stop();
+    return 0;
 }
 
 static void GetRandBytes(unsigned char* buf, int num)
